@@ -57,6 +57,16 @@ func runC12(r *Run) {
 	})
 
 	r.NilArgsRule("C12.R7", "client", "jsonclient", "ct")
+
+	r.Rule("C12.R9")
+	c12RspErrNonNil(r)
+	// the leaf the client verifies an SCT over (rule sets of C01.R7 and C03.R8)
+	r.Shared("C12.R8", func() {
+		r.Rule("C01.R7")
+		c01Leaf(r)
+		r.Rule("C03.R8")
+		c03RawChain(r)
+	})
 }
 
 // ---- R1 ---------------------------------------------------------------------------
